@@ -155,6 +155,7 @@ fn gen_sections<P: PT>(rep: &mut Report, pairs: u64, ties: u64, directed: u64) {
     rep.generated(&format!("{} generated pairs (bits x relation)", P::NAME), pairs, || gen::pair(n, es), |&(a, b), l| pair_slow::<P>(a, b, &[0, 1, 2, 3], l));
     rep.generated(&format!("{} tie-directed (threshold built backwards)", P::NAME), ties, || gen::tie_pair(n, es), |&(op, a, b), l| pair_slow::<P>(a, b, &[op as usize], l));
     rep.generated(&format!("{} result-directed (result scale stratified)", P::NAME), directed, || gen::result_pair(n, es), |&(op, a, b), l| pair_slow::<P>(a, b, &[op as usize], l));
+    rep.generated(&format!("{} sparse products (a*b = short leading part + one distant bit)", P::NAME), directed / 2, || gen::sparse_mul_pair(n, es), |&(a, b), l| pair_slow::<P>(a, b, &[2, 3], l));
 }
 
 /// all n-bit patterns whose regime run is at least `minrun` (both polarities, both signs)
